@@ -281,6 +281,18 @@ def brace_variants(prog):
                                                       b not in DOC_KEYWORDS and b not in ('H', 'S', 'B', 'K'))
         if a in takers and simple and b not in routines and (a != 'time' or b != 'at'):
             out.append(base[:i + 1] + ['{', b, '}'] + base[i + 2:])
+    # an operand inside an expression: braces round it leave the expression as it was
+    depth = 0
+    for i, b in enumerate(base):
+        if b == '{':
+            depth += 1
+        elif b == '}':
+            depth -= 1
+        elif depth > 0 and i > 0 and base[i - 1] != '[':
+            simple = b.replace('.', '', 1).isdigit() or (b.isidentifier() and b not in DOC_KEYWORDS and
+                                                          b not in ('H', 'S', 'B', 'K') and b not in routines)
+            if simple:
+                out.append(base[:i] + ['{', b, '}'] + base[i + 1:])
     return out
 
 
